@@ -120,6 +120,9 @@ def run(chk):
             rejected += 1
             chk.dist('outcome', 'rejected-by-api')
             continue
+        if 'TAST' in m:
+            chk.dist('theorem_conclusion_on_model', 'scan_ctx (p_ctx ms) = map tnorm_module ms' if m['TAST'] == 'tnorm'
+                     else 'AST differs from tnorm (labels not in first-occurrence order, or outside wf_text)')
         if 'X0' in a:
             chk.dist('exec', 'ok' if not a['X0'].startswith('ERR') else 'link-or-run-error')
         if not bad:
